@@ -523,6 +523,24 @@ fn eval(a: &[String]) -> String {
       }
       out
     }
+    "week_index_scan" => {
+      // index in year of every civil week (all months, starts, indices) of a few years vs. (first day - first day of the week holding Jan 1) / 7
+      let mut out = "NONE".to_string();
+      'scan: for y in [2023isize, 2024, 2000, 1582, 1583, 4, 9998] {
+        for start in 0..7usize {
+          let w0 = SolarWeek::from_ym(y, 1, 0, start).get_first_day();
+          for m in 1..=12usize {
+            let mon = SolarMonth::from_ym(y, m);
+            for i in 0..mon.get_week_count(start) {
+              let w = SolarWeek::from_ym(y, m, i, start);
+              let want = w.get_first_day().subtract(w0) / 7;
+              if w.get_index_in_year() as isize != want { out = format!("{}-{} week {} start {}: index in year {} expected {}", y, m, i, start, w.get_index_in_year(), want); break 'scan; }
+            }
+          }
+        }
+      }
+      out
+    }
     "fortune_scan" => {
       // decade / yearly fortunes of births on every 3rd day of 2000-2001 (both genders): ages, years and pillars against the rule
       use tyme4rs::tyme::eightchar::ChildLimit;
